@@ -5,6 +5,8 @@ package main
 import (
 	"fmt"
 	"go/types"
+	"os"
+	"runtime/debug"
 	"sort"
 	"strings"
 	"sync"
@@ -13,7 +15,15 @@ import (
 var epochMu sync.Mutex
 var epochCounter int
 
-func nextEpoch() int { epochMu.Lock(); defer epochMu.Unlock(); epochCounter++; return epochCounter }
+func nextEpoch() int {
+	epochMu.Lock()
+	defer epochMu.Unlock()
+	epochCounter++
+	if os.Getenv("GOVC_DEBUG") == "epoch" {
+		debug.PrintStack()
+	}
+	return epochCounter
+}
 
 type State struct {
 	epoch int
